@@ -64,6 +64,18 @@ def check_program(R, out, prog, ctx, optset, macros, case_extra, what="result", 
     if preds["faithful"] is None:
         out.count("reference_step_limit")
         return None
+    if observed[0][0] == "timeout":
+        # the reference terminates within its step bound; a wall-clock timeout counts only if it reproduces with a doubled limit
+        R.time_limit *= 2
+        try:
+            again = R.run_text(text, optset, fresh=True)
+        finally:
+            R.time_limit /= 2
+        if again[0][0] == "timeout":
+            out.violation(f"{keyprefix}/nontermination", {"text": text, "expected": repr(preds["faithful"])[:300], "time_limits_s": [R.time_limit, R.time_limit * 2], "trace_before_timeout": again[1][:40]}, case)
+        else:
+            out.incon("program hit the wall-clock bound once but finished on retry", case)
+        return observed
     cl = progrun.classify(observed, preds, what)
     if cl is None:
         return observed
